@@ -336,6 +336,54 @@ func Catalogue(syntax string) []Dev {
 	add("M.name", "D", func(ws *WS) { M(ws).Name = "D"; S(ws).Methods[0].In = "D" })
 	add("M.name", "P", func(ws *WS) { M(ws).Name = "P"; S(ws).Methods[0].In = "P" })
 	add("dep.D", "renamed", func(ws *WS) { firstMsg(ws.File("dep.proto")).Name = "DD" })
+	// extension declarations on D's range in dep.proto (main extends D with `int32 x1 = 100`, a.b.c.x1)
+	depRange := func(ws *WS) (*Msg, int) {
+		d := firstMsg(ws.File("dep.proto"))
+		for i, x := range d.Body {
+			if _, ok := x.(*ExtRange); ok {
+				return d, i
+			}
+		}
+		panic("dep.D has no extension range")
+	}
+	declDev := func(name string, ranges ...*ExtRange) {
+		add("dep.D", "ext-"+name, func(ws *WS) {
+			d, i := depRange(ws)
+			var repl []any
+			for _, r := range ranges {
+				cp := *r
+				repl = append(repl, &cp)
+			}
+			d.Body = append(append(append([]any(nil), d.Body[:i]...), repl...), d.Body[i+1:]...)
+		})
+	}
+	whole := [][2]int64{{100, 199}}
+	okDecl := ExtDecl{Number: 100, FullName: ".a.b.c.x1", Type: "int32"}
+	declDev("declared", &ExtRange{Ranges: whole, Decls: []ExtDecl{okDecl}})
+	declDev("declared-verification", &ExtRange{Ranges: whole, Verification: "DECLARATION", Decls: []ExtDecl{okDecl}})
+	declDev("declared-other-number", &ExtRange{Ranges: whole, Decls: []ExtDecl{{Number: 101, FullName: ".a.b.c.x1", Type: "int32"}}})
+	declDev("verification-only", &ExtRange{Ranges: whole, Verification: "DECLARATION"})
+	declDev("unverified-only", &ExtRange{Ranges: whole, Verification: "UNVERIFIED"})
+	declDev("unverified-with-declaration", &ExtRange{Ranges: whole, Verification: "UNVERIFIED", Decls: []ExtDecl{okDecl}})
+	declDev("declared-other-name", &ExtRange{Ranges: whole, Decls: []ExtDecl{{Number: 100, FullName: ".a.b.c.x9", Type: "int32"}}})
+	declDev("declared-other-type", &ExtRange{Ranges: whole, Decls: []ExtDecl{{Number: 100, FullName: ".a.b.c.x1", Type: "int64"}}})
+	declDev("declared-message-type", &ExtRange{Ranges: whole, Decls: []ExtDecl{{Number: 100, FullName: ".a.b.c.x1", Type: ".a.b.D"}}})
+	declDev("declared-repeated", &ExtRange{Ranges: whole, Decls: []ExtDecl{{Number: 100, FullName: ".a.b.c.x1", Type: "int32", Repeated: true}}})
+	declDev("declared-reserved", &ExtRange{Ranges: whole, Decls: []ExtDecl{{Number: 100, Reserved: true}}})
+	declDev("declared-reserved-named", &ExtRange{Ranges: whole, Decls: []ExtDecl{{Number: 100, FullName: ".a.b.c.x1", Type: "int32", Reserved: true}}})
+	declDev("declared-no-dot", &ExtRange{Ranges: whole, Decls: []ExtDecl{{Number: 100, FullName: "a.b.c.x1", Type: "int32"}}})
+	declDev("declared-type-no-dot", &ExtRange{Ranges: whole, Decls: []ExtDecl{{Number: 100, FullName: ".a.b.c.x1", Type: "a.b.D"}}})
+	declDev("declared-outside", &ExtRange{Ranges: whole, Decls: []ExtDecl{okDecl, {Number: 250, FullName: ".a.b.c.y", Type: "int32"}}})
+	declDev("declared-number-twice", &ExtRange{Ranges: whole, Decls: []ExtDecl{okDecl, {Number: 100, FullName: ".a.b.c.y", Type: "int32"}}})
+	declDev("declared-name-twice", &ExtRange{Ranges: whole, Decls: []ExtDecl{okDecl, {Number: 101, FullName: ".a.b.c.x1", Type: "int32"}}})
+	declDev("declared-name-only", &ExtRange{Ranges: whole, Decls: []ExtDecl{{Number: 100, FullName: ".a.b.c.x1"}}})
+	declDev("declared-bare", &ExtRange{Ranges: whole, Decls: []ExtDecl{{Number: 100}}})
+	declDev("declared-on-two-ranges", &ExtRange{Ranges: [][2]int64{{100, 149}, {150, 199}}, Decls: []ExtDecl{okDecl}})
+	// adjacent ranges: the extension sits on the first number of the upper one
+	declDev("lower-verified-upper-plain", &ExtRange{Ranges: [][2]int64{{50, 99}}, Verification: "DECLARATION"}, &ExtRange{Ranges: whole})
+	declDev("lower-plain-upper-declares-other-name", &ExtRange{Ranges: [][2]int64{{50, 99}}}, &ExtRange{Ranges: whole, Decls: []ExtDecl{{Number: 100, FullName: ".a.b.c.x9", Type: "int32"}}})
+	declDev("lower-declared-upper-declared", &ExtRange{Ranges: [][2]int64{{50, 99}}, Decls: []ExtDecl{{Number: 99, FullName: ".a.b.c.x1", Type: "int32"}}}, &ExtRange{Ranges: whole, Decls: []ExtDecl{{Number: 100, FullName: ".a.b.c.x2", Type: "int32"}}})
+	declDev("upper-first-lower-verified", &ExtRange{Ranges: whole}, &ExtRange{Ranges: [][2]int64{{50, 99}}, Verification: "DECLARATION"})
 	add("second-message", "field-of-M", func(ws *WS) {
 		ws.Main().Decls = append(ws.Main().Decls, &Msg{Name: "M2", Body: []any{f(lab, "M", "m", 1), f(lab, "M.Inner", "n", 2), f(lab, "M.ME", "e", 3)}})
 	})
